@@ -470,7 +470,8 @@ class RequireMatcher(WrappingMatcher):
 
     def skip_to_quality(self, minquality):
         skipped = self.a.skip_to_quality(minquality)
-        self.child._find_next()
+        if self.child.is_active() and self.a.id() != self.b.id():
+            self.child._find_next()
         return skipped
 
     def weight(self):
